@@ -182,3 +182,41 @@ def load_known():
     p = os.path.join(VERIF, 'known_findings.json')
     if not os.path.exists(p): return []
     return json.load(open(p))['findings']
+
+# ------------------------------------------------------------------ generic case evaluation
+def parse_zlist(text):
+    m = re.search(r'=\s*\[(.*?)\]\s*:\s*list Z', text, re.S)
+    if not m: return None
+    body = m.group(1).replace('%Z', '').replace('(', '').replace(')', '')
+    if not body.strip(): return []
+    return [int(t) for t in body.replace('\n', ' ').split(';')]
+
+def coq_eval_cases(name, header, terms, per_file=200, timeout=900, keep=False):
+    """Evaluate Gallina terms of type Z inside coqc with vm_compute, in parallel.
+    header: text placed at the top of each generated file (Require Imports, helper defs).
+    terms: list of strings, each a closed Gallina term of type Z (convention: (-1)%Z = model and
+    implementation agree; any other value identifies what differed).
+    Returns (values, errors): values[i] is an int or None (when the file holding case i failed)."""
+    d = scratch('cases_' + name)
+    files = []
+    for fi in range(0, len(terms), per_file):
+        chunk = terms[fi:fi + per_file]
+        path = os.path.join(d, '%s_%d.v' % (name, fi // per_file))
+        with open(path, 'w') as f:
+            f.write(header + '\n')
+            for j, t in enumerate(chunk):
+                f.write('Definition case_%d : Z := %s.\n' % (j, t))
+            f.write('Eval vm_compute in (%s : list Z).\n' % clist(['case_%d' % j for j in range(len(chunk))]))
+        files.append((path, fi, len(chunk)))
+    res = run_coqc_many([p for p, _, _ in files], timeout=timeout)
+    values = [None] * len(terms); errors = []
+    for path, fi, n in files:
+        rc, out = res[path]
+        vals = parse_zlist(out)
+        if vals is None or len(vals) != n:
+            errors.append({'file': path, 'rc': rc, 'output': out[-2000:]})
+            continue
+        values[fi:fi + n] = vals
+    if not keep and not errors:
+        shutil.rmtree(d, ignore_errors=True)
+    return values, errors
